@@ -343,11 +343,27 @@ def incremental_tolerated(ctx, rule):
     sub = [lf for lf in lv if any(e[0] == "call" and e[3] == conn.PHL for e in lf.events)]
     tolerated_set(ctx, rule, "incremental", fn, sub, is_phl, continues, returns_err_of)
     # the Headers the line is parsed into are those of the pending request
-    for lf in sub[:1]:
+    # ... in place: the receiver *is* that field (a copy taken out with mem::take / clone and parsed into must come back on
+    # every path that goes on -- also the one that ignores the line -- or what was gathered before is lost)
+    seen_sites = set()
+    for lf in sub:
         ev = [e for e in lf.events if e[0] == "call" and e[3] == conn.PHL][0]
-        recv = ev[4][2][0]
-        ok = any(isinstance(s, tuple) and s and s[0] == "field" and s[3] == "headers" for s in subterms(recv)) and conn.pending_req(recv)
-        ctx.ob(rule, "incremental|into-pending-headers", ok, "header lines are parsed into pending_request.headers", fn.loc(ev[1]))
+        if int(ev[1]) in seen_sites and lf.kind != "return":
+            pass
+        recv = look(ev[4][2][0])
+        while recv[0] == "mut":
+            recv = look(recv[1])
+        in_place = recv[0] == "field" and recv[3] == "headers" and conn.pending_req(recv)
+        ok = in_place
+        if not in_place and any(isinstance(s, tuple) and s and s[0] == "field" and s[3] == "headers" for s in subterms(recv)) and conn.pending_req(recv):
+            # parsed into a value taken out of the pending request: on a path that continues it must be put back
+            rk = ret_kind(lf)
+            goes_on = lf.kind == "loop" or (rk is not None and rk[0] == "Ok")
+            back = [a for a in lf.events if a[0] == "assign" and a[3].endswith(".headers") and not a[3].startswith("(*_1).") and any(norm(x) == norm(recv) for x in subterms(a[4]) if isinstance(x, tuple))]
+            ok = (not goes_on) or bool(back)
+        key = "incremental|into-pending-headers" + ("" if int(ev[1]) not in seen_sites else "|bb%d" % lf.bb)
+        seen_sites.add(int(ev[1]))
+        ctx.ob(rule, key, ok, "header lines are parsed into pending_request.headers, in place (or into a value taken out of it that is put back on every path that goes on)", fn.loc(ev[1]))
 
 
 def uri(ctx):
